@@ -194,10 +194,11 @@ class SList(Sym):
 
 
 class SSet(Sym):
-    __slots__ = ("ety", "chi")
+    __slots__ = ("ety", "chi", "elems")
 
-    def __init__(self, ety, chi):
+    def __init__(self, ety, chi, elems=None):
         self.ety, self.chi = ety, chi
+        self.elems = elems        # terms of a finite explicit set {e1, .., ek} (then chi[x] <=> x is one of them), else None
 
     @property
     def ty(self):
@@ -475,3 +476,14 @@ def numstr_axioms():
     """assumed str algebra for decimal texts (audited): str(n).isdigit() and int(str(n)) == n for n >= 0"""
     n = z3.Int("n!ns")
     return [z3.ForAll([n], z3.Implies(n >= 0, z3.And(ISDIGIT(NUMSTR(n)), STRINT(NUMSTR(n)) == n)))]
+
+# ---------------------------------------------------------------------------------- networks as address sets (C14)
+# NET_IN(a, n): address a belongs to network n.  Uninterpreted in the list-level VCs; the engine adds, per use of
+# supernet()/subnets()/subnet_of, the instance facts listed in pyvc.lemmas.net_lemmas (proved there on the bit-level
+# definitions of ipaddress: network_address & netmask, prefixlen).
+NET_IN = z3.Function("net_has", z3.BitVecSort(BVW), Net, z3.BoolSort())
+NET_SUPER = z3.Function("net_supernet", Net, Net)
+NET_SUB0 = z3.Function("net_subnet0", Net, Net)
+NET_SUB1 = z3.Function("net_subnet1", Net, Net)
+NETSTR = z3.Function("text_of_net", Net, z3.StringSort())          # str(IPv4Network)
+NETPARSE = z3.Function("net_of_text", z3.StringSort(), Net)         # IPv4Network(text) for texts written by str()
